@@ -310,7 +310,7 @@ def goal_model(g, st, scope=()):
                 if k in vs:
                     return vs.index(k)
                 return n + venv(k)
-            hs.append(("mkClause", atom_model(head, st, henv), [atom_model(b, st, henv) for b in body]))
+            hs.append(("mkHyp", sx.Nat(n), ("mkClause", atom_model(head, st, henv), [atom_model(b, st, henv) for b in body])))
         return ("GIf", hs, goal_model(g[2], st, scope))
     if kind == "not":
         return ("GNot", goal_model(g[1], st, scope))
@@ -336,7 +336,7 @@ def peel(g):
 
 
 def query_model(g, st):
-    """The peeled query for Chalk.Logic.Contract:  (mkQuery [ub ...] body) — the outer forall
+    """The peeled query for Chalk.Logic.Contract:  (mkQuery m [ub ...] body) — the outer forall
     variables become the placeholders TPh 0.., the outer exists variables are the free
     variables TVar j of the body (j = position in `evars`, de Bruijn: LAST exists var = 0 ...
     no: Contract uses positional variables: TVar j = j-th exists variable), ub_j = number of
@@ -352,7 +352,7 @@ def query_model(g, st):
     body = subst_goal(body, phmap)
     # Contract.sat_query evaluates the body under rho = rev theta, so that the j-th exists
     # variable is TVar (n-1-j) in de Bruijn terms: scope = evars with innermost last.
-    return ("mkQuery", ubs, goal_model(body, st, tuple(evars))), evars
+    return ("mkQuery", seen, ubs, goal_model(body, st, tuple(evars))), evars
 
 
 def subst_goal(g, m):
@@ -488,16 +488,26 @@ def answer_ty_model(t, st, phmap, labels=None):
 
 
 def prefix_phmap(prefix_sx):
-    """harness prefix `[E (A u i) ...]` -> {(u, i): k}, k = position among the foralls (TPh k),
-    and the list of ub_j for the exists variables."""
-    m, ubs, k = {}, [], 0
+    """harness prefix `[E (A u i) ...]` -> ({(u, i): k}, [ub_j ...], {u: number of prefix
+    placeholders with universe <= u}); k = position among the foralls (TPh k)."""
+    m, ubs, k, per_u = {}, [], 0, {}
     for p in prefix_sx:
         if sx.head(p) == "A":
             m[(p[1], p[2])] = k
             k += 1
+            per_u[p[1]] = k
         else:
             ubs.append(k)
-    return m, ubs
+    return m, ubs, per_u
+
+
+def universe_ub(per_u, u):
+    """number of prefix placeholders visible from universe u"""
+    best = 0
+    for uu, k in per_u.items():
+        if uu <= u:
+            best = max(best, k)
+    return best
 
 
 def answer_model(ans, st, prefix_sx, labels=None):
@@ -506,23 +516,24 @@ def answer_model(ans, st, prefix_sx, labels=None):
     `Free` entries (an exists variable that does not occur in the goal) become fresh answer
     variables appended after the solver's own binders."""
     h = sx.head(ans)
-    phmap, _ = prefix_phmap(prefix_sx)
+    phmap, ubs, per_u = prefix_phmap(prefix_sx)
     if h == "NoSolution":
         return "ANone"
     if h == "AmbigUnknown":
         return "AUnknown"
-    if h in ("Unique", "AmbigDefinite", "AmbigSuggested"):
-        us, tys = list(ans[1]), ans[2]
+    if h in ("Unique", "AmbigDefinite", "AmbigSuggested", "Definite", "Ambiguous"):
+        vubs = [universe_ub(per_u, u) for u in ans[1]]
         out = []
-        for t in tys:
+        for j, t in enumerate(ans[2]):
             a = answer_ty(t)
             if a == ("free",):
-                out.append(("TVar", sx.Nat(len(us))))
-                us.append(0)
+                out.append(("TVar", sx.Nat(len(vubs))))
+                vubs.append(ubs[j] if j < len(ubs) else 0)
             else:
                 out.append(answer_ty_model(a, st, phmap, labels))
-        ctor = {"Unique": "AUnique", "AmbigDefinite": "ADefinite", "AmbigSuggested": "ASuggested"}[h]
-        return (ctor, sx.Nat(len(us)), out)
+        ctor = {"Unique": "AUnique", "AmbigDefinite": "ADefinite", "AmbigSuggested": "ASuggested",
+                "Definite": "AUnique", "Ambiguous": "ASuggested"}[h]
+        return (ctor, vubs, out)
     return None
 
 
